@@ -58,6 +58,13 @@ var c20Reqs = []c20Req{
 	{"union-default-resolve", `{ u { ... on A { aOnly items(n:1) { n } } ... on B { bOnly } } b { u { ... on A { id } ... on B { id } } } }`, nil, nil, "", nil},
 	{"default-resolved-sources", `{ plainA { name n tag } plainB { name n tag } plainPtr { name n } plainMap { name n tag } plainTagged { name n tag } plainFR { name n } plainFRPtr { name n tag echoArg(x:3) } }`, nil, nil,
 		`{"plainA":{"n":1,"name":"a-name","tag":"a-tag"},"plainB":{"n":2,"name":"b-name","tag":"b-tag"},"plainFR":{"n":9,"name":"fr-name"},"plainFRPtr":{"echoArg":3,"n":11,"name":"ptr-name","tag":"ptr-tag"},"plainMap":{"n":3,"name":"map-name","tag":"map-tag-fn"},"plainPtr":{"n":4,"name":"ptr-name"},"plainTagged":{"n":5,"name":"tagged-name","tag":"tagged-tag"}}`, nil},
+	{"conditional-duplicates", `query($s:Boolean!,$t:Boolean!){ x1 @skip(if:$s) x1 x2 @include(if:$t) a @skip(if:$s) { name } a { id } a @include(if:$t) { kind } ...F @skip(if:$s) ...F ... @include(if:$t) { ...G } ...G } fragment F on Query { x3 b { id } } fragment G on Query { x4 b { name } }`,
+		[]map[string]interface{}{v("s", true, "t", false), v("s", false, "t", true), v("s", true, "t", true), v("s", false, "t", false)}, nil, "", nil},
+	{"conditional-duplicates-abstract", `query($s:Boolean!){ nodes(n:3) { id @skip(if:$s) id ... on A @skip(if:$s) { items(n:1) { n } } ... on A { items(n:1) { label } } ...N @skip(if:$s) ...N } } fragment N on Node { name peer { id @include(if:$s) id } }`,
+		[]map[string]interface{}{v("s", true), v("s", false)}, nil, "", nil},
+	{"literal-off-then-on", `{ a { ...G @skip(if:true) id ...G } nodes(n:2) { ...N @include(if:false) ... on Node { ...N } } ... @skip(if:true) { ...Q } ...Q } fragment G on A { name aOnly } fragment N on Node { id kind } fragment Q on Query { x1 b { id } }`, nil, nil, "", nil},
+	{"default-resolved-abstract", `query($x:Int,$s:String){ plainMap { name node { id ... on B { bOnly } } objA { id aOnly } nodes { id ... on C { cOnly } } un { ... on A { aOnly } } } plainFR { name echoArg(x:$x) } plainFRPtr { n } echo(s:$s) ...F } fragment F on Query { x1 }`,
+		[]map[string]interface{}{v("x", 4, "s", "q"), v("x", 5, "s", "r")}, nil, "", nil},
 	{"object-literal-with-variable", `query($t:String!, $m:Int){ echo(f:{min:1, tags:[$t]}, i:4) echo2(f:{min:$m, kind:BETA, tags:["k"]}, l:[1,$m]) }`,
 		[]map[string]interface{}{v("t", "z", "m", 6), v("t", "y", "m", 2)}, nil, "",
 		[]map[string]string{
@@ -313,25 +320,7 @@ func (st *c20State) check(rc *ReqCtx, p *graphql.ResolveParams, path string) {
 		}
 	}
 	// request-level values
-	if rv, ok := info.RootValue.(Tok); !ok || rv != st.root {
-		bad("Info.RootValue is %v, expected %v", info.RootValue, st.root)
-	}
-	if st.doc != nil {
-		if info.Operation != st.op {
-			bad("Info.Operation is not this request's operation")
-		}
-		for name, f := range st.frags {
-			if info.Fragments[name] != f {
-				bad("Info.Fragments[%s] is not this document's fragment", name)
-			}
-		}
-		if len(info.Fragments) != len(st.frags) {
-			bad("Info.Fragments has %d entries, the document defines %d", len(info.Fragments), len(st.frags))
-		}
-	}
-	if info.Schema.QueryType() != st.w.Obj["Query"] {
-		bad("Info.Schema is not the schema the request runs against")
-	}
+	st.requestLevel(bad, info)
 	// an argument the document does not supply carries the default declared by
 	// the field of the parent's RUNTIME type
 	if obj != nil && len(info.FieldASTs) > 0 && info.FieldASTs[0] != nil {
@@ -393,6 +382,66 @@ func (st *c20State) check(rc *ReqCtx, p *graphql.ResolveParams, path string) {
 	rc.mu.Unlock()
 }
 
+// requestLevel judges the parts of an info that are the same for every call
+// of one execution: root value, operation, fragments, schema, variable values.
+func (st *c20State) requestLevel(bad func(string, ...interface{}), info graphql.ResolveInfo) {
+	if rv, ok := info.RootValue.(Tok); !ok || rv != st.root {
+		bad("Info.RootValue is %v, expected %v", info.RootValue, st.root)
+	}
+	if st.doc != nil {
+		if info.Operation != st.op {
+			bad("Info.Operation is not this request's operation")
+		}
+		for name, f := range st.frags {
+			if info.Fragments[name] != f {
+				bad("Info.Fragments[%s] is not this document's fragment", name)
+			}
+		}
+		if len(info.Fragments) != len(st.frags) {
+			bad("Info.Fragments has %d entries, the document defines %d", len(info.Fragments), len(st.frags))
+		}
+	}
+	if info.Schema.QueryType() != st.w.Obj["Query"] {
+		bad("Info.Schema is not the schema the request runs against")
+	}
+	// supplied plain values coerce to themselves
+	for name, supplied := range st.vars {
+		switch supplied.(type) {
+		case int, string, bool:
+			got, ok := info.VariableValues[name]
+			if s, isStr := got.(string); isStr && strings.HasPrefix(s, "POISON") {
+				continue
+			}
+			if !ok || got != supplied {
+				bad("Info.VariableValues[%s] is %v (present=%v), the request supplied %v", name, got, ok, supplied)
+			}
+		}
+	}
+}
+
+// checkInfo is installed as ReqCtx.CheckInfo: the info that type resolvers,
+// isTypeOf functions and FieldResolver sources receive.
+func (st *c20State) checkInfo(rc *ReqCtx, who, path string, info graphql.ResolveInfo) {
+	bad := func(format string, a ...interface{}) {
+		rc.bad(fmt.Sprintf("%s: %s: ", path, who) + fmt.Sprintf(format, a...))
+	}
+	if PathString(info.Path) != path || info.FieldName == "" || len(info.FieldASTs) == 0 {
+		bad("the info does not describe the field (name %q, path %q)", info.FieldName, PathString(info.Path))
+		return
+	}
+	if lastSeg(stripIndices(path)) != responseKey(info.FieldASTs[0]) {
+		bad("Info.Path ends in %q but the first occurrence has response key %q", lastSeg(stripIndices(path)), responseKey(info.FieldASTs[0]))
+	}
+	if info.ParentType == nil || info.ReturnType == nil {
+		bad("Info.ParentType / ReturnType missing")
+	} else if fd, ok := info.ParentType.(*graphql.Object); ok {
+		if f, has := fd.Fields()[info.FieldName]; !has || f.Type != info.ReturnType {
+			bad("Info.ReturnType %v is not the declared type of %s.%s", info.ReturnType, fd.Name(), info.FieldName)
+		}
+	}
+	st.requestLevel(bad, info)
+}
+
 // varsSansPoison renders variable values without this execution's own scribbles.
 func varsSansPoison(m map[string]interface{}) string {
 	out := map[string]interface{}{}
@@ -426,6 +475,7 @@ func c20RunSolo(req int, e C20Exec, ord int, task string, extPlan map[string]str
 	st := newC20State(w, doc, root, rq.Occ)
 	rc := &ReqCtx{Task: task, Req: ord, W: w, Variant: e.Variant, Faults: e.Faults, RootTok: root}
 	rc.Check = st.check
+	rc.CheckInfo = st.checkInfo
 	var vs map[string]interface{}
 	if e.Vars < len(rq.Vars) {
 		vs = rq.Vars[e.Vars]
@@ -597,11 +647,13 @@ func (c20) Run(t TestingT, scn json.RawMessage, tape *Tape) *Outcome {
 					var res *graphql.Result
 					switch sc.Entry {
 					case "plan":
-						rc.Check = newC20State(w, doc, root, rq.Occ).withVars(vs).check
+						st := newC20State(w, doc, root, rq.Occ).withVars(vs)
+						rc.Check, rc.CheckInfo = st.check, st.checkInfo
 						res = graphql.ExecutePlan(plan, graphql.ExecuteParams{Schema: w.Schema, Root: root, Args: vs, Context: ctx})
 					case "cache", "cache-norm":
 						// the cache parses the text itself: occurrences are nodes of its own document
-						rc.Check = newC20State(w, nil, root, rq.Occ).withVars(vs).check
+						st := newC20State(w, nil, root, rq.Occ).withVars(vs)
+						rc.Check, rc.CheckInfo = st.check, st.checkInfo
 						pr := cache.Get(&w.Schema, rq.Query, "")
 						if pr.Plan == nil {
 							res = &graphql.Result{Errors: pr.Errors}
@@ -609,7 +661,8 @@ func (c20) Run(t TestingT, scn json.RawMessage, tape *Tape) *Outcome {
 							res = graphql.ExecutePlan(pr.Plan, graphql.ExecuteParams{Schema: w.Schema, Root: root, Args: mergeArgs(vs, pr.SynthArgs), Context: ctx})
 						}
 					default:
-						rc.Check = newC20State(w, doc, root, rq.Occ).withVars(vs).check
+						st := newC20State(w, doc, root, rq.Occ).withVars(vs)
+						rc.Check, rc.CheckInfo = st.check, st.checkInfo
 						res = graphql.Execute(graphql.ExecuteParams{Schema: w.Schema, Root: root, AST: doc, Args: vs, Context: ctx})
 					}
 					results[n].rc = rc
@@ -726,7 +779,16 @@ func (c20) Run(t TestingT, scn json.RawMessage, tape *Tape) *Outcome {
 			if e := sc.Clients[sl.ci][sl.ei]; e.Vars < len(rq.Vars) {
 				vs = rq.Vars[e.Vars]
 			}
-			if doc, err := parseDoc(rq.Query); err == nil {
+			// (a resolver that scribbles over this execution's own variable
+			// values changes what later @skip/@include decisions of the same
+			// execution see: the selection is then not a function of the request)
+			varsPoisoned := false
+			for _, f := range sc.Clients[sl.ci][sl.ei].Faults {
+				if f == FHostileVars {
+					varsPoisoned = true
+				}
+			}
+			if doc, err := parseDoc(rq.Query); err == nil && !varsPoisoned {
 				if msg := CheckSelectedKeys(doc, "", vs, c07Root(rq.Query), dec.Data, typeAt, NewWorldPossible()); msg != "" {
 					o.Violate("C20/unselected-or-missing-key", "execution %d: %s\n response: %s", sl.ord, msg, ex.result)
 				}
